@@ -82,6 +82,8 @@ func c11Run(w *W) {
 	}
 	var mu sync.Mutex // guards the harness' own shared state (engine F runs tasks in parallel)
 	var pipes []mangos.Pipe
+	var dialers []mangos.Dialer
+	var listeners []mangos.Listener
 	openCtx := 0
 	s.SetPipeEventHook(func(ev mangos.PipeEvent, p mangos.Pipe) {
 		if ev == mangos.PipeEventAttached {
@@ -91,9 +93,15 @@ func c11Run(w *W) {
 		}
 	})
 	laddr := w.Addr(tran)
-	if err := s.Listen(laddr); err != nil {
+	l0, err := s.NewListener(laddr, nil)
+	if err != nil || l0.Listen() != nil {
 		w.Failf("HARNESS/listen", "%v", err)
 		return
+	}
+	listeners = append(listeners, l0)
+	if d0, err := s.NewDialer(laddr+"y", map[string]interface{}{mangos.OptionDialAsynch: true}); err == nil {
+		dialers = append(dialers, d0)
+		_ = d0.Dial()
 	}
 	// peers with background traffic
 	stop := w.NewEvent()
@@ -145,7 +153,7 @@ func c11Run(w *W) {
 	for t := range progs {
 		n := 5 + w.Choose(simrt.SProg, 26)
 		for i := 0; i < n; i++ {
-			k := []string{"Send", "Send", "Recv", "Recv", "SetOption", "SetOption", "GetOption", "Context", "Dial", "Listen", "PipeClose", "Sleep"}[w.Choose(simrt.SProg, 12)]
+			k := []string{"Send", "Send", "Recv", "Recv", "SetOption", "SetOption", "GetOption", "Context", "Dial", "Listen", "PipeClose", "Sleep", "EndpointOption", "EndpointOption", "PipeOption"}[w.Choose(simrt.SProg, 15)]
 			progs[t] = append(progs[t], c11Op{k, w.Choose(simrt.SProg, 1<<16), w.Choose(simrt.SProg, 1<<16)})
 		}
 		if t == closer {
@@ -212,9 +220,23 @@ func c11Run(w *W) {
 						}
 					}
 				case "Dial":
-					check("Dial", s.DialOptions(laddr+"x", map[string]interface{}{mangos.OptionDialAsynch: true}))
+					d, err := s.NewDialer(laddr+"x", map[string]interface{}{mangos.OptionDialAsynch: true})
+					check("Dial", err)
+					if err == nil {
+						mu.Lock()
+						dialers = append(dialers, d)
+						mu.Unlock()
+						check("Dial", d.Dial())
+					}
 				case "Listen":
-					check("Listen", s.Listen(w.Addr(tran)))
+					l, err := s.NewListener(w.Addr(tran), nil)
+					check("Listen", err)
+					if err == nil {
+						mu.Lock()
+						listeners = append(listeners, l)
+						mu.Unlock()
+						check("Listen", l.Listen())
+					}
 				case "PipeClose":
 					mu.Lock()
 					var p mangos.Pipe
@@ -224,6 +246,52 @@ func c11Run(w *W) {
 					mu.Unlock()
 					if p != nil {
 						check("PipeClose", p.Close())
+					}
+				case "EndpointOption":
+					// dialers and listeners forward some options to the transport and
+					// others up to the socket: both directions take locks
+					o := c11Opts[op.a%len(c11Opts)]
+					mu.Lock()
+					var ep interface {
+						GetOption(string) (interface{}, error)
+						SetOption(string, interface{}) error
+					}
+					if n := len(dialers) + len(listeners); n > 0 {
+						i := op.b % n
+						if i < len(dialers) {
+							ep = dialers[i]
+						} else {
+							ep = listeners[i-len(dialers)]
+						}
+					}
+					mu.Unlock()
+					if ep != nil {
+						if op.b%3 == 0 {
+							err := ep.SetOption(o.name, o.vals[op.b%len(o.vals)])
+							if !c11Allowed("SetOption", err) {
+								check("SetOption", err)
+							}
+						} else {
+							_, err := ep.GetOption(o.name)
+							if !c11Allowed("GetOption", err) && err != mangos.ErrBadProperty {
+								check("GetOption", err)
+							}
+						}
+					}
+				case "PipeOption":
+					mu.Lock()
+					var p mangos.Pipe
+					if len(pipes) > 0 {
+						p = pipes[op.a%len(pipes)]
+					}
+					mu.Unlock()
+					if p != nil {
+						o := c11Opts[op.b%len(c11Opts)]
+						_, err := p.GetOption(o.name)
+						if !c11Allowed("GetOption", err) && err != mangos.ErrBadProperty {
+							check("GetOption", err)
+						}
+						_ = p.Address()
 					}
 				case "Sleep":
 					w.Sleep(time.Duration(op.a%2000) * time.Microsecond)
